@@ -640,7 +640,8 @@ class Gen:
                 pat = "[" + ", ".join(names[:n]) + "]"
                 ints = names[:n]
             elif shape == "guard":
-                pat = "[" + ", ".join(names[:n]) + f"] if {names[0]} % 2 == {rnd.randint(0, 1)}"
+                pat = "[" + ", ".join(names[:n]) + "]"
+                gcond = f"{names[0]} % 2 == {rnd.randint(0, 1)}"
                 ints = names[:n]
             elif shape == "star":
                 pat = f"[{names[0]}, *{names[1]}]" if n > 1 else f"[*{names[1]}]"
@@ -655,10 +656,21 @@ class Gen:
                 ints = names[:n]
             else:
                 pat = "{'k': " + names[0] + ", **" + names[1] + "}"
-            em.both(f"case {pat}:")
+            if shape == "guard":
+                # the captures are bound when the pattern matches, before the guard is evaluated
+                # (and stay bound when the guard fails)
+                hooks = ", ".join(f"({nm} := __b__({fn!r}, {nm!r}, {nm}))" for nm in ints)
+                for nm in ints:
+                    self.note_bind(fn, nm)
+                em.ponly(f"case {pat} if {gcond}:")
+                em.tonly(f"case {pat} if ({hooks}, {gcond})[-1]:")
+            else:
+                em.both(f"case {pat}:")
             em.ip += 1
             em.it += 1
-            if shape not in ("wrong_len", "mapping_miss"):
+            if shape == "guard":
+                ctx["bound"] |= set(ints)
+            elif shape not in ("wrong_len", "mapping_miss"):
                 order = (ints + others) if shape != "star" or n > 1 else others
                 for nm in order:
                     if nm in others:
@@ -893,12 +905,25 @@ class Gen:
             items_t.append(f"CM({st}, {vt}, {swallow}) as {nm}")
             names.append(nm)
         elif r < 0.75:
+            # several items: the second context expression reads the first target (the statement is
+            # equivalent to two nested with statements, which is how the twin writes it)
             self.feat("with_multi")
-            for nm in ["w1", "w2"]:
-                s = self.leaf()
-                items_p.append(f"CM({self.nsite()}, {s}) as {nm}")
-                items_t.append(items_p[-1])
-                names.append(nm)
+            s1, s2 = self.leaf(), self.leaf()
+            n1, n2 = self.nsite(), self.nsite()
+            em.ponly(f"with CM({n1}, {s1}) as w1, CM({n2}, w1 + {s2}) as w2:")
+            em.tonly(f"with CM({n1}, {s1}) as w1:")
+            em.it += 1
+            self.bind_hook(em, fn, "w1")
+            em.tonly(f"with CM({n2}, w1 + {s2}) as w2:")
+            em.it += 1
+            self.bind_hook(em, fn, "w2")
+            em.ip += 1
+            ctx["bound"] |= {"w1", "w2"}
+            self.block(em, ctx, depth + 1, rnd.randint(1, 2))
+            em.ip -= 1
+            em.it -= 2
+            ctx["bound"] = saved | {"w1", "w2"}
+            return
         elif r < 0.9:
             self.feat("with_tuple_target")
             s1, s2 = self.leaf(), self.leaf()
